@@ -14,6 +14,26 @@ def sig_of(name, r):
     return "%s:error=%s%s" % (name, a["errk"], (",code=" + a["codek"]) if a["errk"] == "objcode" else "")
 
 
+def client_histories(ctx):
+    """After an exchange that went wrong (every fault item of the transport alphabet, incl. a reply cut while it is being
+    parsed and an error page larger than the socket buffer), the next healthy exchange on the same proxy reports a
+    JSON-RPC error: it must surface as ProtocolError / AppError with its code (ClientHistJudge.tla)."""
+    of = ctx.path("clienthist.json")
+    common.run_py(os.path.join(VERIF, "harness", "errorcheck_run.py"), ["histories", of, ctx.seed, 56 if ctx.tier == "quick" else 1400])
+    recs = json.load(open(of))
+    fails, _ = casejudge.judge(ctx, "ClientHistJudge", of, "ClientHistJudge.cfg")
+    for i, r in enumerate(recs, 1):
+        ctx.cov["evaluations"] += 1
+        ctx._distinct.add("hist:%s:%s" % (r["fault"], r["item"]))
+        for name in sorted(fails.get(i, ())):
+            ctx.violation("%s:%s:%s" % (name, r["fault"], r["want"]),
+                          "%s: after a %s exchange the next call was answered with JSON-RPC error %s but the proxy gave %s %s" % (
+                              name, r["fault"], r["code"]["a"], r["second"]["kind"], r["second"].get("text", "")),
+                          {"kind": "history", "fault": r["fault"], "item": r["item"]})
+        if not fails.get(i):
+            ctx.cov["traces_validated_against_impl"] += 1
+
+
 def run(ctx):
     ctx.cov["rule"] = ("one case = one reply shape (error kind x code class x message/trace x data x result kind x envelope) from TLC's "
                        "enumeration, concretised k times and accessed through 4 client paths; distinct = distinct shapes; non-trivial = "
@@ -43,6 +63,7 @@ def run(ctx):
             ctx.cov["traces_validated_against_impl"] += 1
     for r in recs[:3]:
         ctx.sample({"reply": r["text"], "check_for_errors": r["cfe"]["kind"], "proxy": r["proxy"]["kind"]})
+    client_histories(ctx)
 
 
 def replay(ctx, path):
